@@ -48,6 +48,37 @@ type FuncContract struct {
 	File     string
 	Line     int
 	Modifies []string // raw modifies specs
+	Locks    []*LockDecl
+}
+
+// LockDecl: monitor declaration  `lock T.f protects items` / `lock T.f invariant e`.
+type LockDecl struct {
+	Type, Field string
+	Protects    []string
+	Inv         []*Clause
+}
+
+type Macro struct {
+	Name   string
+	Params []string
+	Body   Expr
+}
+
+type GhostFn struct {
+	Name   string
+	Params []string // sort abbreviations: word u8 u32 bool ...
+	Result string
+}
+
+func (fc *FuncContract) lockDecl(typ, field string) *LockDecl {
+	for _, l := range fc.Locks {
+		if l.Type == typ && l.Field == field {
+			return l
+		}
+	}
+	l := &LockDecl{Type: typ, Field: field}
+	fc.Locks = append(fc.Locks, l)
+	return l
 }
 
 func (fc *FuncContract) ByKind(kind string) []*Clause {
@@ -61,7 +92,7 @@ func (fc *FuncContract) ByKind(kind string) []*Clause {
 }
 
 func (fc *FuncContract) HasPanicSpec() bool {
-	return len(fc.ByKind("panics_iff")) > 0 || len(fc.ByKind("panics_if")) > 0
+	return len(fc.ByKind("panics_iff")) > 0 || len(fc.ByKind("panics_if")) > 0 || len(fc.ByKind("ensures_panic")) > 0
 }
 
 type Lemma struct {
@@ -74,9 +105,11 @@ type Lemma struct {
 }
 
 type ContractFile struct {
-	Path   string
-	Funcs  []*FuncContract
-	Lemmas []*Lemma
+	Path     string
+	Funcs    []*FuncContract
+	Lemmas   []*Lemma
+	Macros   map[string]*Macro
+	GhostFns []*GhostFn
 }
 
 var (
@@ -90,7 +123,7 @@ func ParseContractFile(path string) (*ContractFile, error) {
 		return nil, err
 	}
 	defer f.Close()
-	cf := &ContractFile{Path: path}
+	cf := &ContractFile{Path: path, Macros: map[string]*Macro{}}
 	type rawLine struct {
 		text string
 		line int
@@ -130,6 +163,39 @@ func ParseContractFile(path string) (*ContractFile, error) {
 			cur = &FuncContract{Key: strings.TrimSpace(rest), File: path, Line: rl.line, Arith: "bv", Opts: map[string]string{}}
 			cf.Funcs = append(cf.Funcs, cur)
 			continue
+		case "macro":
+			// macro name(a, b): expr
+			i, j := strings.Index(rest, "("), strings.Index(rest, "):")
+			if i < 0 || j < i {
+				return nil, errf("macro syntax: macro name(params): expr")
+			}
+			mc := &Macro{Name: strings.TrimSpace(rest[:i])}
+			for _, p := range strings.Split(rest[i+1:j], ",") {
+				if p = strings.TrimSpace(p); p != "" {
+					mc.Params = append(mc.Params, p)
+				}
+			}
+			e, err := ParseExpr(rest[j+2:])
+			if err != nil {
+				return nil, errf("%v", err)
+			}
+			mc.Body = expandMacros(e, cf.Macros)
+			cf.Macros[mc.Name] = mc
+			continue
+		case "ghostfn":
+			// ghostfn name(word, word) word
+			i, j := strings.Index(rest, "("), strings.LastIndex(rest, ")")
+			if i < 0 || j < i {
+				return nil, errf("ghostfn syntax: ghostfn name(sorts) sort")
+			}
+			g := &GhostFn{Name: strings.TrimSpace(rest[:i]), Result: strings.TrimSpace(rest[j+1:])}
+			for _, p := range strings.Split(rest[i+1:j], ",") {
+				if p = strings.TrimSpace(p); p != "" {
+					g.Params = append(g.Params, p)
+				}
+			}
+			cf.GhostFns = append(cf.GhostFns, g)
+			continue
 		case "lemma":
 			name, r2 := splitWord(rest)
 			name = strings.TrimSuffix(name, ":")
@@ -163,6 +229,27 @@ func ParseContractFile(path string) (*ContractFile, error) {
 			cur.Opts[k] = strings.TrimSpace(v)
 		case "modifies":
 			cur.Modifies = append(cur.Modifies, strings.TrimSpace(rest))
+		case "lock":
+			// lock T.f protects items | lock T.f invariant [label:] expr
+			tf, r2 := splitWord(rest)
+			k2, r3 := splitWord(r2)
+			dot := strings.Index(tf, ".")
+			if dot < 0 {
+				return nil, errf("lock needs Type.field")
+			}
+			ld := cur.lockDecl(tf[:dot], tf[dot+1:])
+			switch k2 {
+			case "protects":
+				ld.Protects = append(ld.Protects, r3)
+			case "invariant":
+				c, err := parseClause("lockinv", r3, path, rl.line)
+				if err != nil {
+					return nil, err
+				}
+				ld.Inv = append(ld.Inv, c)
+			default:
+				return nil, errf("lock clause must be protects or invariant")
+			}
 		case "requires", "ensures", "panics_iff", "panics_if", "assume", "ensures_panic":
 			c, err := parseClause(kw, rest, path, rl.line)
 			if err != nil {
@@ -201,7 +288,73 @@ func ParseContractFile(path string) (*ContractFile, error) {
 			return nil, errf("unknown clause keyword %q", kw)
 		}
 	}
+	for _, fc := range cf.Funcs {
+		for _, c := range fc.Clauses {
+			c.E = expandMacros(c.E, cf.Macros)
+		}
+		for _, l := range fc.Locks {
+			for _, c := range l.Inv {
+				c.E = expandMacros(c.E, cf.Macros)
+			}
+		}
+	}
+	for _, lm := range cf.Lemmas {
+		lm.E = expandMacros(lm.E, cf.Macros)
+	}
 	return cf, nil
+}
+
+// expandMacros inlines macro calls (by AST substitution of the parameters).
+func expandMacros(e Expr, ms map[string]*Macro) Expr {
+	if len(ms) == 0 || e == nil {
+		return e
+	}
+	var sub func(e Expr, env map[string]Expr) Expr
+	sub = func(e Expr, env map[string]Expr) Expr {
+		switch n := e.(type) {
+		case *EIdent:
+			if v, ok := env[n.Name]; ok {
+				return v
+			}
+			return n
+		case *EUnary:
+			return &EUnary{n.Op, sub(n.X, env)}
+		case *EBinary:
+			return &EBinary{n.Op, sub(n.X, env), sub(n.Y, env)}
+		case *ECond:
+			return &ECond{sub(n.C, env), sub(n.A, env), sub(n.B, env)}
+		case *ESel:
+			return &ESel{sub(n.X, env), n.Name}
+		case *EIndex:
+			return &EIndex{sub(n.X, env), sub(n.I, env)}
+		case *EQuant:
+			inner := map[string]Expr{}
+			for k, v := range env {
+				inner[k] = v
+			}
+			for _, v := range n.Vars {
+				delete(inner, v.Name)
+			}
+			return &EQuant{n.Forall, n.Vars, sub(n.Body, inner)}
+		case *ECall:
+			var args []Expr
+			for _, a := range n.Args {
+				args = append(args, sub(a, env))
+			}
+			if id, ok := n.Fn.(*EIdent); ok {
+				if m, ok := ms[id.Name]; ok && len(m.Params) == len(args) {
+					menv := map[string]Expr{}
+					for i, p := range m.Params {
+						menv[p] = args[i]
+					}
+					return sub(m.Body, menv)
+				}
+			}
+			return &ECall{n.Fn, args}
+		}
+		return e
+	}
+	return sub(e, map[string]Expr{})
 }
 
 func parseClause(kind, rest, path string, line int) (*Clause, error) {
